@@ -127,6 +127,10 @@ class TLCResult:
             pass
         if m:
             self.generated, self.distinct = int(m.group(1)), int(m.group(2))
+        if not m:
+            ms = re.search(r"The number of states generated: (\d+)", out)
+            if ms:
+                self.generated = self.distinct = int(ms.group(1))
         m = re.search(r"depth of the complete state graph search is (\d+)", out)
         if m:
             self.depth = int(m.group(1))
